@@ -36,7 +36,7 @@ ASSUMPTIONS = [
     "Dataset.copy() / inplace=False results are not required to keep appended-but-unused axes",
 ]
 MANDATORY = ["op:set-new", "op:set-replace", "op:reject", "op:del", "op:rename_ds", "op:rename_var", "op:dims", "op:set_axis", "op:axes_set",
-             "op:axes_set_int", "op:axes_set_renamed", "op:label", "op:append", "op:rename_keys", "op:rename_axes", "rename_axes:callable", "rename_keys:identity-entries", "label:through-a-variable", "label:attribute-shortcut-dataset", "label:attribute-shortcut-variable", "set_axis:callable-mixed-result-types", "op:copy", "op:derive",
+             "op:axes_set_int", "op:axes_set_renamed", "op:label", "op:append", "op:rename_keys", "op:rename_axes", "rename_axes:callable", "rename_keys:identity-entries", "label:through-a-variable", "label:set_axis-through-a-variable", "label:attribute-shortcut-dataset", "label:attribute-shortcut-variable", "set_axis:callable-mixed-result-types", "op:copy", "op:derive",
              "start:constructed", "reject-after-accept", "replace-changes-dims", "axis-change-with-2-users", "reject:new-dim-first", "dims:permute-existing", "reject:truncated-labels", "reject:near-miss-labels"]
 
 NAMES = ["x", "y", "z", "w"]
@@ -436,11 +436,16 @@ def run_case(case):
 
             full = [new if j == i else x for j, x in enumerate(cur)]
             users = m.users(d)
-            via = (b // 2 + c) % 4
+            via = (b // 2 + c) % 6
             if via == 1 and users:
                 kv = users[(a + b) % len(users)]
                 lib(lambda: ds[kv].axes[d].__setitem__(i, new), what=what + " ds[%r].axes[%r][%d] = %r (through a variable)" % (kv, d, i, new), sig=sig)
                 cl.add("label:through-a-variable")
+            elif via in (4, 5) and users:
+                kv = users[(a + b) % len(users)]
+                arg = core.label_array(full) if via == 4 else list(full)
+                lib(lambda: ds[kv].set_axis(arg, axis=d, inplace=True), what=what + " ds[%r].set_axis(%r, axis=%r, inplace=True) (through a variable)" % (kv, arg, d), sig=sig)
+                cl.add("label:set_axis-through-a-variable")
             elif via == 2 and d.isidentifier() and not hasattr(type(ds), d) and d not in ds.keys():
                 lib(lambda: setattr(ds, d, core.label_array(full)), what=what + " ds.%s = %r (attribute shortcut through the dataset)" % (d, full), sig=sig)
                 cl.add("label:attribute-shortcut-dataset")
